@@ -319,6 +319,22 @@ def run(rep, tier):
                     from_row = p_.l in der or any(o[0] == "call" and o[1] is e for o in f.slice_back_op(c.args[i]))
                     if from_row and any((d or "").endswith("status::ACTIVE") for d in _const_defs(f, c.args[1 - i])):
                         ok = True
+            if not ok:
+                # the row may be handed to a closure that makes the comparison (`.is_some_and(|row| row.status == ACTIVE)`): a call that
+                # receives a value derived from the row together with a closure of this function whose parameter's status is compared
+                for c in f.calls():
+                    if not any(core.op_place(a) is not None and core.op_place(a).l in der | {src.l} for a in c.args):
+                        continue
+                    for a in c.args:
+                        for o in f.slice_back_op(a):
+                            k_ = prog.fns.get(o[1].cid) if o[0] == "create" else None
+                            if k_ is None:
+                                continue
+                            for q in k_.calls():
+                                if re.search(r"PartialEq.*::(eq|ne)$", q.name or "") and len(q.args) >= 2 and any(
+                                        "status" in k_.slice_fields(q.args[i_]) and any((d or "").endswith("status::ACTIVE") for d in _const_defs(k_, q.args[1 - i_]))
+                                        for i_ in (0, 1)):
+                                    ok = True
             rep.ob("R19.5", "row-status-checked|%s|%s" % (prog.outer_fn(f).path.rsplit("::", 1)[1], e.name.rsplit("::", 1)[1]), ok,
                    "the %s fetched here contributes to an authority decision without its own status being compared with status::ACTIVE "
                    "(a revoked / suspended row would keep conferring authority)" % hit[0].rsplit("::", 1)[1], e.where())
@@ -468,11 +484,90 @@ def run(rep, tier):
             if src & vrows:
                 lens.append(e)
         early = [e for e in lens if not any(f.must_pass([v.block], [e.block]) for v in vis)]
-        rep.ob("R19.6", "count-after-visibility-filter|%s" % prog.outer_fn(f).path.rsplit("::", 1)[1], bool(lens) and not early,
+        if not lens:
+            continue        # filters, but counts nothing (a single row is rendered): no total or cursor to leak
+        rep.ob("R19.6", "count-after-visibility-filter|%s" % prog.outer_fn(f).path.rsplit("::", 1)[1], not early,
                "the number of journal rows is taken before visible_changes removed what the caller may not read (it feeds the page cursor / total)",
                early[0].where() if early else vis[0].where())
     if nvis < 1:
         rep.fault("R19.6: no journal reader calling visible_changes found")
+
+    # ------------------------------------------------------------------ R19.8 the rest of what the C19 audit found
+    rep.rule("R19.8", "a journal row leaves a META function only through the visibility filter; an allow from a policy statement honours its classification "
+             "ceiling as a Grant does; the Principal in the middle of a delegation chain is looked up; the stub of a purged element keeps its classification", floor=4)
+    # (a) every function under meta/ that renders a journal row (TransactionRow -> entry) passes visible_changes first
+    H = nx.N + "::meta::history"
+    renderers = []
+    for f in prog.fns.values():
+        if not f.path.startswith(H + "::") or f.kind == "Closure" and False:
+            continue
+        body_ = f
+        ent = [e for e in body_.calls_named(r"meta::history::entry$")]
+        if not ent or body_.path.endswith("::entry"):
+            continue
+        outer = prog.outer_fn(body_)
+        if outer.path.rsplit("::", 1)[1] in ("visible_changes",):
+            continue
+        renderers.append((outer, body_, ent))
+    seen_r = set()
+    for outer, body_, ent in renderers:
+        name_ = outer.path.rsplit("::", 1)[1]
+        if name_ in seen_r:
+            continue
+        seen_r.add(name_)
+        bodies = [g for (o_, g, _) in renderers if o_ is outer]
+        vis_ids = {g.id for g in prog.fns.values() if g.path == H + "::visible_changes"}
+        whole = [prog.async_body(outer) or outer] + list(prog.closures_of(prog.async_body(outer) or outer))
+        filt = any(set(prog.callee_nodes(e)) & vis_ids or any(prog.reach_set([n]) & vis_ids for n in prog.callee_nodes(e) if n in prog.fns)
+                   for g in whole for e in g.calls())
+        rep.saw(outer, 1)
+        rep.ob("R19.8", "journal-row-rendered-after-visibility-filter|%s" % name_, filt,
+               "meta::history::%s renders a journal row without visible_changes: DESCRIBE TRANSACTION names every element a transaction changed, hidden ones "
+               "included, to a reader for whom HISTORY SPACE hides them (transaction ids are `{space}#{seq}` and can be enumerated)" % name_,
+               ent[0].where())
+    if len(seen_r) < 3:
+        raise CheckerFault("anchor missing: journal renderers in meta::history (found %s)" % sorted(seen_r))
+    # (b) authorize: the classification ceiling is consulted on the allow-statement path too
+    D = nx.N + "::governance::decision"
+    az = [f for f in prog.fns.values() if f.path.endswith("EffectiveAuthority::authorize") and f.path.startswith(D)]
+    rc = {f.id for f in prog.fns.values() if f.path == D + "::reaches_classification"}
+    cm = [f for f in prog.fns.values() if f.path == D + "::candidate_matches"]
+    if not az or not rc or not cm:
+        raise CheckerFault("anchor missing: authorize / reaches_classification / candidate_matches")
+    azb = prog.async_body(az[0]) or az[0]
+    sm = [e for e in azb.calls_named(r"EffectiveAuthority::statement_matches$")]
+    direct = [e for e in azb.calls() if set(prog.callee_nodes(e)) & rc]
+    via_sm = any(prog.reach_set([n]) & rc for e in sm for n in prog.callee_nodes(e) if n in prog.fns)
+    grants_ok = bool(prog.reach_set([cm[0].id]) & rc)
+    rep.ob("R19.8", "allow-statement-honours-classification-ceiling|authorize", grants_ok and (bool(direct) or via_sm),
+           "candidate_matches (Grants, Delegations) applies reaches_classification, the policy-statement path of authorize never does: a reader allowed only by a "
+           "statement with max_classification: public reads `Secret Note`", (sm[0].where() if sm else azb.file))
+    # (c) resolve_delegation: on every path to Some(candidate) the delegator was resolved as a Principal (liveness)
+    rd = [f for f in prog.fns.values() if f.path == D + "::resolve_delegation"]
+    if not rd:
+        raise CheckerFault("anchor missing: resolve_delegation")
+    rdb = prog.async_body(rd[0]) or rd[0]
+    rep.saw(rdb, len(rdb.events))
+    lookups = [e for e in rdb.calls_named(r"GovernanceStore::find_principal$", r"EffectiveAuthority::resolve_at_depth$")]
+    somes = [b for b in rdb.live_blocks() for st in rdb.stmts(b)
+             if st[0] == "A" and st[2]["k"] == "agg" and st[2]["a"].get("v") == "Some" and "Candidate" in rdb.locals[st[1]["l"]]]
+    lb = {b for e in lookups for b in (e.block, e.call_block)}
+    rep.ob("R19.8", "delegator-resolved-as-principal|resolve_delegation", bool(somes) and bool(lb) and all(rdb.must_pass(lb, [b]) for b in somes),
+           "a chained delegation (parent_delegation set) yields a candidate without ever loading the delegator's Principal row: C, delegate of a suspended B in "
+           "A -> B -> C, still reads", (rdb.file + ":%d" % rdb.term(somes[0]).get("ln", rdb.line)) if somes else rdb.file)
+    # (d) the purge stub's governance block is built from the previous one
+    st_ = [f for f in prog.fns.values() if f.path == nx.N + "::governance::purge::stub"]
+    if not st_:
+        raise CheckerFault("anchor missing: governance::purge::stub")
+    sb_ = st_[0]
+    rep.saw(sb_, len(sb_.events))
+    # every row aggregate of the stub: the operand stored into its `governance` field derives from a read of the previous row's governance
+    gov_reads = _field_read_blocks(sb_, "governance")
+    n_rows = sum(1 for b in sb_.live_blocks() for st in sb_.stmts(b) if st[0] == "A" and st[2]["k"] == "agg" and (st[2]["a"].get("def") or "").endswith("Row"))
+    rep.ob("R19.8", "purge-stub-keeps-classification|stub", n_rows >= 5 and len(gov_reads) >= n_rows,
+           "the stub of a purged element gets a fresh Governance block {purged, content_digest} and nothing of the previous one is read: a `secret` element's stub falls "
+           "back to the Space default classification and FIND(?c) WHERE { ?c CONCEPT {id: \"C-1\", state: \"purged\"} } hands it to a reader with an `internal` ceiling",
+           sb_.file + ":%d" % sb_.line)
     return rep.finish(EXPLAIN)
 
 
